@@ -12,21 +12,73 @@
 (* keeps from the wire alone - which is what FlowLedger.tla validates on    *)
 (* recorded traces of the real server.                                      *)
 (***************************************************************************)
-EXTENDS Integers, FiniteSets, TLC
-CONSTANTS Mode, Budget, Streams, WConn, WStream, MinRefresh, MaxWin, Incs, Sizes, InitWins, MaxFrame, MaxQueued
+EXTENDS Integers, FiniteSets, FiniteSetsExt, TLC
+CONSTANTS
+  \* @type: Str;
+  Mode,
+  \* @type: Int;
+  Budget,
+  \* @type: Set(Int);
+  Streams,
+  \* @type: Int;
+  WConn,
+  \* @type: Int;
+  WStream,
+  \* @type: Int;
+  MinRefresh,
+  \* @type: Int;
+  MaxWin,
+  \* @type: Set(Int);
+  Incs,
+  \* @type: Set(Int);
+  Sizes,
+  \* @type: Set(Int);
+  InitWins,
+  \* @type: Int;
+  MaxFrame,
+  \* @type: Int;
+  MaxQueued
 
 VARIABLES \* receive side
-          cAvail, cUnsent, sAvail, sUnsent, buf, st, bodyClosed,
-          peerC, peerS,            \* the peer's ledger of what it may still send
-          \* send side
-          oConn, oSt, queued, initWin, sentTotal, wroteTotal,
-          err
+  \* @type: Int;
+  cAvail,
+  \* @type: Int;
+  cUnsent,
+  \* @type: Int -> Int;
+  sAvail,
+  \* @type: Int -> Int;
+  sUnsent,
+  \* @type: Int -> Int;
+  buf,
+  \* @type: Int -> Str;
+  st,
+  \* @type: Int -> Bool;
+  bodyClosed,
+  \* the peer's ledger of what it may still send
+  \* @type: Int;
+  peerC,
+  \* @type: Int -> Int;
+  peerS,
+  \* send side
+  \* @type: Int;
+  oConn,
+  \* @type: Int -> Int;
+  oSt,
+  \* @type: Int -> Int;
+  queued,
+  \* @type: Int;
+  initWin,
+  \* @type: Int -> Int;
+  sentTotal,
+  \* @type: Int -> Int;
+  wroteTotal,
+  \* @type: Str;
+  err
 vars == <<cAvail, cUnsent, sAvail, sUnsent, buf, st, bodyClosed, peerC, peerS, oConn, oSt, queued, initWin, sentTotal, wroteTotal, err>>
 
-Min(a, b) == IF a < b THEN a ELSE b
-Sum(f) == LET RECURSIVE S(_) 
-              S(D) == IF D = {} THEN 0 ELSE LET x == CHOOSE y \in D : TRUE IN f[x] + S(D \ {x})
-          IN S(DOMAIN f)
+Min2(a, b) == IF a < b THEN a ELSE b
+\* @type: (Int -> Int) => Int;
+Sum(f) == FoldSet(LAMBDA x, acc : f[x] + acc, 0, DOMAIN f)
 
 Init == /\ cAvail = WConn /\ cUnsent = 0
         /\ sAvail = [s \in Streams |-> 0] /\ sUnsent = [s \in Streams |-> 0]
@@ -37,6 +89,7 @@ Init == /\ cAvail = WConn /\ cUnsent = 0
         /\ err = "none"
 
 \* inflow.add: returns <<avail', unsent', sendNow>>
+\* @type: (Int, Int, Int) => <<Int, Int, Int>>;
 Add(avail, unsent, n) ==
   LET u == unsent + n IN
   IF u < MinRefresh /\ u < avail THEN <<avail, u, 0>> ELSE <<avail + u, 0, u>>
@@ -107,9 +160,9 @@ AppWrite(s, n) == /\ err = "none" /\ st[s] \in {"open", "hcr"} /\ queued[s] + n 
 
 SendData(s) ==  \* writeQueue.consume -> FrameWriteRequest.Consume
   /\ err = "none" /\ st[s] \in {"open", "hcr"} /\ queued[s] > 0
-  /\ LET allowed == Min(Min(oSt[s], oConn), MaxFrame) IN
+  /\ LET allowed == Min2(Min2(oSt[s], oConn), MaxFrame) IN
        /\ allowed > 0
-       /\ LET k == Min(allowed, queued[s]) IN
+       /\ LET k == Min2(allowed, queued[s]) IN
             /\ queued' = [queued EXCEPT ![s] = @ - k]
             /\ oSt' = [oSt EXCEPT ![s] = @ - k] /\ oConn' = oConn - k
             /\ sentTotal' = [sentTotal EXCEPT ![s] = @ + k]
